@@ -1,6 +1,9 @@
 \* Reference configuration (the check writes its own per tier, see checks/C31.py)
 SPECIFICATION Spec
 CONSTANTS
+  CodeUnanchored = FALSE
+  CodeNoRange = FALSE
+  CodeClientOffset = FALSE
   Zones = {"UTC", "Asia/Kolkata", "America/Los_Angeles", "America/New_York"}
 INVARIANTS TableConsistent NamesDistinct IdealDeleteOK
 INVARIANTS EmitGroup EmitDeletes
